@@ -367,7 +367,6 @@ class CaseRun:
             self.check_stage(i + 1, by_id[self.stage_ids[i]], cols, exp["tk"][i], op_no, fresh_w, after_ss)
 
     def run_stage_case(self, hist: list[dict]) -> None:
-        from stabilize.models.task import TaskExecution
 
         store = self.env.store
         fresh_w, after_ss = 0, False
@@ -607,10 +606,10 @@ def run(pid: str, tier: str, seed: int) -> int:
             for g in range(3):
                 fs.append(ex.submit(enumerate_cases, f"queue-g{g}", "queue", rots[g::3], 1, 1, ALL_MSG_TYPES, outdir))
             if th:
-                for k in range(8):
-                    fs.append(ex.submit(enumerate_cases, f"stage2-sim{k}", "stage", rots, 2, 1, ALL_MSG_TYPES[:1], outdir, 1500, seed + k))
-                for k in range(4):
-                    fs.append(ex.submit(enumerate_cases, f"queue2-sim{k}", "queue", rots, 1, 2, ALL_MSG_TYPES, outdir, 1500, seed + k))
+                for k in range(5):
+                    fs.append(ex.submit(enumerate_cases, f"stage2-sim{k}", "stage", rots, 2, 1, ALL_MSG_TYPES[:1], outdir, 1200, seed + k))
+                for k in range(3):
+                    fs.append(ex.submit(enumerate_cases, f"queue2-sim{k}", "queue", rots, 1, 2, ALL_MSG_TYPES, outdir, 1200, seed + k))
             runs = [f.result() for f in fs]
         t_tlc = time.time() - t0
         tables = None
@@ -632,8 +631,8 @@ def run(pid: str, tier: str, seed: int) -> int:
             rep.machinery_failure("specification tables out of date with the code: " + d)
 
         # ---- 2. replay
-        examples = int(os.environ.get("VERIF_C19_EXAMPLES", "6" if th else "2"))
-        large = 400_000 if th else 50_000
+        examples = int(os.environ.get("VERIF_C19_EXAMPLES", "4" if th else "2"))
+        large = 200_000 if th else 50_000
         cap_stage = int(os.environ.get("VERIF_C19_CAP", "1000000" if th else "2400"))
         jobs = []
         total_cases = 0
